@@ -46,6 +46,23 @@ theorem released_only_when_unneeded (h : Hyp cfg rank) (hs : StartOK cfg (den cf
   | none => rfl
   | some v => exact absurd hd ((hB.inv.cacheIff d hseen).mp ⟨v, hc⟩).2
 
+/-- **`released_promptly`**: in every reachable state (between loop iterations, at the end, at a failure) a visited key
+that is not requested and whose dependents have all finished HAS been released - memory is given back as soon as the
+last dependent finishes, not merely by the time the call returns. -/
+theorem released_promptly (h : Hyp cfg rank) (hs : StartOK cfg (den cfg P rank) st0)
+    (choices : List Nat) (s' : Sys α) (o : Outcome) (hrun : mainLoop cfg P choices (sys0 st0) = .ok (s', o))
+    (d : Key) (hseen : s'.st.seen d) (hres : d ∉ cfg.results) (hall : ∀ j, d ∈ s'.st.depsOf j → j ∈ s'.st.finished) :
+    d ∈ s'.st.released := by
+  obtain ⟨⟨rest, hB⟩, _⟩ := reach_inv P (den_fixpoint cfg P rank h) h.nw h.cs rank h.acyclic hs hrun
+  apply Classical.byContradiction
+  intro hnr
+  cases hwd : s'.st.waitingData.get? d with
+  | none => exact hnr ((hB.inv.relIff d hseen).mp hwd)
+  | some l =>
+    obtain ⟨j, hj⟩ := List.exists_mem_of_ne_nil l (hB.inv.wdLive d l hwd hres)
+    obtain ⟨hjd, hjf⟩ := (hB.inv.wdExact d l hwd j).mp hj
+    exact hjf (hall j ((hB.inv.dtsIff d j).mp hjd))
+
 /-- **`results_never_released`** -/
 theorem results_never_released (h : Hyp cfg rank) (hs : StartOK cfg (den cfg P rank) st0)
     (choices : List Nat) (s' : Sys α) (o : Outcome) (hrun : mainLoop cfg P choices (sys0 st0) = .ok (s', o))
